@@ -365,7 +365,7 @@ def check_output(ctx, ts, kw, out, ivs, rp):
 
 
 def run(ctx, model_ok=True):
-    n = ctx.n(300, 1200)
+    n = ctx.n(240, 1200)
     cases = []
     for _ in range(n):
         ts = make_ts(ctx.rng)
